@@ -14,7 +14,8 @@ RULE = ('complete enumeration of the integers in [-2^17, 2^17], of 2^k + d (k = 
         '<= 1024 bytes, random float32 patterns; instruction level ADD/SUBTRACT/MULT/DIV/MOD_INTS, DIV_INT, MOD_INT, '
         'LESS, LESS_OR_EQUAL through run_script with stack_max_item_size 4096. Oracle: int.to_bytes/from_bytes(signed) '
         'and a hand-written IEEE-754 binary32 decoder. non-trivial = |n| >= 2^53, or within +-3 of a power of two, or '
-        'a non-finite / subnormal float, or an operand >= 2^53 at instruction level; distinct = the value / bytes.')
+        'a non-finite / subnormal float, or an operand >= 2^53 at instruction level; distinct = the value / bytes.'
+        ' Operands carry 0-3 redundant sign bytes; every op case runs again under the tightest item limit that holds operands and result.')
 ASSUMPTIONS = ['Python int.to_bytes / from_bytes(signed=True) is the reference integer codec',
                'signalling-NaN payloads may be quieted by the platform (only NaN-ness and the remaining payload are required)']
 
@@ -132,9 +133,14 @@ def _enc(n):
     return n.to_bytes(ln, 'big', signed=True)
 
 
-def check_op(op, a, b, c=0):
+def _pad(e, k):
+    """the same integer with k redundant sign bytes in front (decoding is total: every encoding of n is n)"""
+    return (b'\xff' if e[0] & 0x80 else b'\x00') * k + e
+
+
+def check_op(op, a, b, c=0, pa=0, pb=0):
     """a is pushed first (second from top), b is the top."""
-    ea, eb = _enc(a), _enc(b)
+    ea, eb = _pad(_enc(a), pa), _pad(_enc(b), pb)
     if op in ('DIV', 'MOD', 'DIV_INT', 'MOD_INT') and (a <= 0 or b < 0):
         raise ValueError('domain')
     if op == 'ADD':
@@ -179,6 +185,15 @@ def check_op(op, a, b, c=0):
         return []
     if len(r) == 0 or ref_dec_int(r) != exp or (r[0] >> 7) != (1 if exp < 0 else 0):
         return [('op/%s-value' % op, 'a bits %d b bits %d -> %s..' % (a.bit_length(), b.bit_length(), r[:12].hex()))]
+    # "at any magnitude that fits the item limit": the same again under the tightest limit that holds every operand and the
+    # result (operands that are wide while the result is not: x * 0, x * 1, 2^k * 2^k, x - x, ...)
+    tight = max(len(ea), len(eb), len(_enc(c)) if op == 'ADD3' else 1, len(_enc(exp)))
+    try:
+        _, stack, _ = F.run_script(sc, stack_max_item_size=tight)
+        if stack.list() != items:
+            return [('op/%s-value-under-the-tightest-fitting-item-limit' % op, 'limit %d' % tight)]
+    except BaseException as e:  # noqa
+        return [('op/%s-raises-under-the-tightest-fitting-item-limit' % op, 'limit %d: %s: %r' % (tight, type(e).__name__, str(e)[:60]))]
     return []
 
 
@@ -193,7 +208,7 @@ def check_case(case):
     if k == 'f32':
         return check_f32(case['p'] & 0xffffffff)
     if k == 'op':
-        return check_op(case['op'], case['a'], case['b'], case.get('c', 0))
+        return check_op(case['op'], case['a'], case['b'], case.get('c', 0), case.get('pa', 0) % 5, case.get('pb', 0) % 5)
     raise ValueError(k)
 
 
@@ -270,20 +285,23 @@ def task_random(ctx):
     hyp.drive(st.binary(min_size=1, max_size=1024), dec, ctx.n(40000, 600000), ctx.seed + 1)
 
     def op(t):
-        o, a, b, c = t
+        o, a, b, c, pa, pb = t
         try:
-            fails = check_op(o, a, b, c)
+            fails = check_op(o, a, b, c, pa, pb)
         except ValueError:
             ctx.count('op:out-of-domain')
             return
         ctx.case(('op', o, a, b, c), max(abs(a), abs(b)) >= 2 ** 53)
         ctx.count('op:' + o)
+        if pa or pb:
+            ctx.count('op:operand with redundant sign bytes')
         for sg, d in fails:
-            ctx.fail('op', sg, {'check': 'op', 'op': o, 'a': a, 'b': b, 'c': c}, d)
+            ctx.fail('op', sg, {'check': 'op', 'op': o, 'a': a, 'b': b, 'c': c, 'pa': pa, 'pb': pb}, d)
         if abs(a) > 2 ** 64:
             ctx.sample({'check': 'op', 'op': o, 'a_bits': a.bit_length(), 'b_bits': b.bit_length()})
     small = st.one_of(st.integers(-300, 300), st.sampled_from([2 ** 53, 2 ** 63, 2 ** 64 - 1, -2 ** 63, 2 ** 127]))
-    hyp.drive(st.tuples(st.sampled_from(OPS), st.one_of(bigint(), small), st.one_of(bigint(), small), small),
+    padn = st.sampled_from([0, 0, 0, 1, 2, 3])
+    hyp.drive(st.tuples(st.sampled_from(OPS), st.one_of(bigint(), small), st.one_of(bigint(), small), small, padn, padn),
               op, ctx.n(40000, 800000), ctx.seed + 2)
 
 
